@@ -17,6 +17,30 @@ use dicom_encoding::{
 #[derive(Debug, Copy, Clone, PartialEq, Eq, Hash, PartialOrd, Ord)]
 pub struct UncompressedAdapter;
 
+/// The size of a frame in bytes as described by the image attributes,
+/// if they are all present and samples take a whole number of bytes.
+fn frame_size_of(src: &dyn PixelDataObject) -> Option<usize> {
+    let bits_allocated = src.bits_allocated()?;
+    if bits_allocated == 0 || bits_allocated % 8 != 0 {
+        return None;
+    }
+    Some(
+        src.cols()? as usize
+            * src.rows()? as usize
+            * src.samples_per_pixel()? as usize
+            * (bits_allocated / 8) as usize,
+    )
+}
+
+/// A fragment holding a frame of odd size ends with a padding byte,
+/// which is not part of the frame.
+fn without_padding(fragment: &[u8], frame_size: Option<usize>) -> &[u8] {
+    match frame_size {
+        Some(size) if size % 2 == 1 && fragment.len() == size + 1 => &fragment[..size],
+        _ => fragment,
+    }
+}
+
 impl PixelDataReader for UncompressedAdapter {
     fn decode(&self, src: &dyn PixelDataObject, dst: &mut Vec<u8>) -> DecodeResult<()> {
         // just flatten all fragments into the output vector
@@ -24,8 +48,9 @@ impl PixelDataReader for UncompressedAdapter {
             .raw_pixel_data()
             .context(decode_error::MissingAttributeSnafu { name: "Pixel Data" })?;
 
+        let frame_size = frame_size_of(src);
         for fragment in pixeldata.fragments {
-            dst.extend_from_slice(&fragment);
+            dst.extend_from_slice(without_padding(&fragment, frame_size));
         }
 
         Ok(())
@@ -42,7 +67,7 @@ impl PixelDataReader for UncompressedAdapter {
             .frame_pixel_data(frame)
             .context(decode_error::FrameRangeOutOfBoundsSnafu)?;
 
-        dst.extend_from_slice(frame.as_ref());
+        dst.extend_from_slice(without_padding(frame.as_ref(), frame_size_of(src)));
 
         Ok(())
     }
